@@ -10,7 +10,7 @@ VOCAB = ["ADD", "SUB", "MUL", "DIV", "SDIV", "MOD", "SMOD", "ADDMOD", "MULMOD", 
          "SGT", "EQ", "ISZERO", "AND", "OR", "XOR", "NOT", "BYTE", "SHL", "SHR", "SAR", "KECCAK256", "ADDRESS",
          "BALANCE", "CALLER", "CALLVALUE", "CALLDATALOAD", "CALLDATASIZE", "SELFBALANCE", "TIMESTAMP", "POP", "MLOAD",
          "MSTORE", "MSTORE8", "SLOAD", "SSTORE", "GAS", "LOG1", "CALL", "STATICCALL", "CALLDATACOPY", "CODECOPY",
-         "RETURNDATASIZE", "EXTCODESIZE", "CREATE", "PUSH [tag]", "PUSHSIZE", "ASSIGNIMMUTABLE"]
+         "RETURNDATASIZE", "EXTCODESIZE", "CREATE", "PUSH [tag]", "PUSHSIZE", "ASSIGNIMMUTABLE", "MSIZE", "MSIZE"]
 BOUNDARY = [0, 1, 2, 3, 31, 32, 33, 64, 255, 256, 257, (1 << 160) - 1, (1 << 255) - 1, 1 << 255, (1 << 256) - 2,
             (1 << 256) - 1]
 
